@@ -75,6 +75,12 @@ class FakeS3(object):
             rp['rejected'] = rp.get('rejected', 0) + 1
             raise ClientError({'Error': {'Code': rp.get('code', 'SlowDown'), 'Message': 'Please reduce your request rate.'},
                                'ResponseMetadata': {'HTTPStatusCode': 503}}, 'PutObject')
+        rd = getattr(self, 'reject_deletes', None)
+        if rd and op == 'delete' and self.mutations == rd['at'] and rd['times'] > 0:
+            rd['times'] -= 1
+            rd['rejected'] = rd.get('rejected', 0) + 1
+            raise ClientError({'Error': {'Code': rd.get('code', 'SlowDown'), 'Message': 'Please reduce your request rate.'},
+                               'ResponseMetadata': {'HTTPStatusCode': 503}}, 'DeleteObjects')
         if self.crash_at is not None and self.mutations == self.crash_at:
             self.crash_at = None
             raise InjectedCrash('crash before mutation %d (%s %s)' % (self.mutations, op, key))
